@@ -480,7 +480,36 @@ class Extract:
                 out.append(toks[i])
                 i += 1
         toks = out
-        r = self.atom0(toks, pre)
+        npre = len(pre)
+        try:
+            r = self.atom0(toks, pre)
+        except Unsupported as first:
+            # the same comparison written the other way round (`NULL == x` style: `s->text_end <= text`, `hi < c`), or a call
+            # compared with 0 (`memcmp(..) != 0`)
+            del pre[npre:]
+            mirror = {"==": "==", "!=": "!=", "<": ">", ">": "<", "<=": ">=", ">=": "<="}
+            depth, at = 0, None
+            for j, t in enumerate(toks):
+                if t in "([":
+                    depth += 1
+                elif t in ")]":
+                    depth -= 1
+                elif depth == 0 and t in mirror:
+                    if at is not None:
+                        raise first
+                    at = j
+            if at is None:
+                raise first
+            lhs, op, rhs = toks[:at], toks[at], toks[at + 1:]
+            try:
+                if rhs == ["0"] and op in ("==", "!=") and len(lhs) > 2 and lhs[1] == "(":
+                    r = self.atom0(lhs, pre)
+                    if op == "==":
+                        r = neg(r)
+                else:
+                    r = self.atom0(rhs + [mirror[op]] + lhs, pre)
+            except Unsupported:
+                raise first
         return ('pre', pre, r) if pre else r
 
     def atom0(self, toks, pre):
